@@ -1,13 +1,18 @@
 (** C19 — serialising a parse tree back to wikitext preserves it
-    (models: Model/Attrs.v, Model/ToWikitext.v).
+    (models: Model/Attrs.v, Model/ToWikitext.v, Model/TableEmit.v over
+    Model/Tables.v).
     PARTIAL: proved for all inputs — attribute maps survive the
-    to_attrs / parse_attrs round trip, and the text protection leaves no
+    to_attrs / parse_attrs round trip, the text protection leaves no
     double bracket in any string (so literal brackets cannot be re-read as a
-    link) and only inserts markers.  The equivalence of whole trees after
+    link) and only inserts markers, and every table tree of the shape the
+    parser builds is read back from what to_wikitext writes for it as exactly
+    that tree (at the level of the table handlers' tokens, any size and
+    nesting).  The equivalence of whole trees of other kinds after
     to_wikitext + parse and the fixed-point clause are decided per run by
     execution (three parses per generated document). *)
 From Coq Require Import List NArith Bool.
 From WTP Require Import Base.Str Model.Attrs Model.ToWikitext Proofs.AttrsProofs Proofs.ToWikitextProofs.
+From WTP Require Model.Tables Model.TableEmit Proofs.TablesProofs Proofs.TableEmitProofs.
 Import ListNotations.
 
 Theorem c19_attributes_survive :
@@ -25,6 +30,35 @@ Theorem c19_protection_only_inserts_markers :
 Proof. exact unprotect_protect. Qed.
 Print Assumptions c19_protection_only_inserts_markers.
 
+(* Tables.  [emit] is what the TABLE / TABLE_CAPTION / TABLE_ROW / TABLE_HEADER_CELL / TABLE_CELL emitters of
+   to_wikitext write, as the tokens the parser makes of it; [shaped] is the shape of the table trees the parser builds
+   (at most one attribute atom per node, an optional caption first, rows of at least one cell, cell content of
+   non-empty strings and tables with no two strings in a row).  Every such tree, of any size and nesting depth, is
+   read back as itself. *)
+Module TablesRoundTrip.
+Import Tables TableEmit TablesProofs TableEmitProofs.
+Theorem c19_table_trees_survive_the_round_trip :
+  forall fuel T, shaped fuel T = true -> parse (emit T) = Some [CN T].
+Proof. exact emitted_table_parses_back. Qed.
+Print Assumptions c19_table_trees_survive_the_round_trip.
+
+(* ... and the trees of written tables have that shape: parse, to_wikitext, parse gives the first tree again *)
+Theorem c19_written_tables_round_trip :
+  forall t, wf_table t = true ->
+    parse (render_table t) = Some [CN (tree_table t)] /\ parse (emit (tree_table t)) = Some [CN (tree_table t)].
+Proof. exact written_table_round_trip. Qed.
+Print Assumptions c19_written_tables_round_trip.
+
+Example c19_a_table_tree :
+  let T := TN KTable [1%nat]
+             [CN (TN KCaption [] [CS [(2%nat, true)]]);
+              CN (TN KRow [3%nat] [CN (TN KCell [4%nat] [CS [(5%nat, true); (6%nat, false)]]);
+                                   CN (TN KHdr [] [CS [(7%nat, true)]; CN (TN KTable [] [CN (TN KRow [] [CN (TN KCell [] [])])]); CS [(8%nat, true)]])]);
+              CN (TN KRow [] [CN (TN KHdr [] [])])] in
+  shaped 5 T = true /\ parse (emit T) = Some [CN T].
+Proof. split; reflexivity. Qed.
+End TablesRoundTrip.
+
 (* BEGIN PINS (tools/repin.py) *)
 From WTP Require Import Gen.GenPins.
 Module Pins.
@@ -34,7 +68,7 @@ Import String.
    docstrings, comments and layout).  A different digest means that the model is no longer known to describe the
    code; the check then reports the broken tie and looks for a failing input. *)
 Theorem c19_models_describe_the_current_source :
-  (pin_to_wikitext, pin_to_attrs) = ("4b5684c489600fcf", "0b0a6f06c00ccd8c")%string.
+  (pin_to_wikitext, pin_to_attrs) = ("63330b9755293960", "0b0a6f06c00ccd8c")%string.
 Proof. reflexivity. Qed.
 Print Assumptions c19_models_describe_the_current_source.
 End Pins.
